@@ -15,6 +15,9 @@ CHECKS = {
  "C14": ("model_checking", "stateless preemption-bounded schedule exploration (CHESS style) of real threads on the real transport under a cooperative scheduler with line-level scheduling points",
          "All schedules of 8 small harnesses (2-3 publishers, 0-2 subscribers, new/existing channels, exact and wildcard patterns) with at most 1-2 (thorough 2-3) preemptions are executed on the real InMemorySemantivaTransport; each complete schedule is checked for exactly-once delivery, per-publisher channel order and pattern routing, and deadlock. The losing interleaving inside lazy channel creation needs one preemption in a window of a few bytecodes - enumeration hits it on every run, a free-running test essentially never.",
          "CPython GIL; line-granularity switching; threading.Lock replaced by a cooperative lock inside in_memory.py for the duration of the check", "3 C14"),
+ "C13": ("model_checking", "explicit-state search over the subset lattice of real trace records with the real TraceAggregator.ingest as transition function (diamond property), plus every crash prefix against a reference verdict",
+         "Traces are captured from the real runtime (single runs failing at each node kind, launches with a failing run, file and directory mode). Every prefix is judged against the documented verdict of the record set; every subset of up to 9 (thorough 12) records is reached through every possible last-ingested record, with and without an intermediate finalize, and all incoming edges must produce the same canonical verdict state - which, by induction on subset size, covers every permutation and every k-way file interleaving without sampling.",
+         "traces longer than the bound are covered through lifecycle records plus chosen SER subsets; verdict for SER-only subsets (no crash can produce them) is not demanded", "3 C13"),
 }
 NA = []
 def main():
